@@ -1,6 +1,38 @@
--- shard 14 of the closeness / tick-gap sweep (C06 (c), (e)): |tick| in [458752, 491520)
+-- shard 14 of the closeness / tick-gap sweep (C06 (c), (e)): |tick| in [458752, 491520), 16 blocks of 2^11
 import Proofs.Lemmas.ClosePred
 namespace Demeter.TickClose
 set_option maxRecDepth 100000 in
-theorem close_shard_14 : chkN closeSweepPred 458752 shardBits = true := by decide +kernel
+theorem close_blk_458752 : chkN closeSweepPred 458752 11 = true := by decide +kernel
+set_option maxRecDepth 100000 in
+theorem close_blk_460800 : chkN closeSweepPred 460800 11 = true := by decide +kernel
+set_option maxRecDepth 100000 in
+theorem close_blk_462848 : chkN closeSweepPred 462848 11 = true := by decide +kernel
+set_option maxRecDepth 100000 in
+theorem close_blk_464896 : chkN closeSweepPred 464896 11 = true := by decide +kernel
+set_option maxRecDepth 100000 in
+theorem close_blk_466944 : chkN closeSweepPred 466944 11 = true := by decide +kernel
+set_option maxRecDepth 100000 in
+theorem close_blk_468992 : chkN closeSweepPred 468992 11 = true := by decide +kernel
+set_option maxRecDepth 100000 in
+theorem close_blk_471040 : chkN closeSweepPred 471040 11 = true := by decide +kernel
+set_option maxRecDepth 100000 in
+theorem close_blk_473088 : chkN closeSweepPred 473088 11 = true := by decide +kernel
+set_option maxRecDepth 100000 in
+theorem close_blk_475136 : chkN closeSweepPred 475136 11 = true := by decide +kernel
+set_option maxRecDepth 100000 in
+theorem close_blk_477184 : chkN closeSweepPred 477184 11 = true := by decide +kernel
+set_option maxRecDepth 100000 in
+theorem close_blk_479232 : chkN closeSweepPred 479232 11 = true := by decide +kernel
+set_option maxRecDepth 100000 in
+theorem close_blk_481280 : chkN closeSweepPred 481280 11 = true := by decide +kernel
+set_option maxRecDepth 100000 in
+theorem close_blk_483328 : chkN closeSweepPred 483328 11 = true := by decide +kernel
+set_option maxRecDepth 100000 in
+theorem close_blk_485376 : chkN closeSweepPred 485376 11 = true := by decide +kernel
+set_option maxRecDepth 100000 in
+theorem close_blk_487424 : chkN closeSweepPred 487424 11 = true := by decide +kernel
+set_option maxRecDepth 100000 in
+theorem close_blk_489472 : chkN closeSweepPred 489472 11 = true := by decide +kernel
+theorem close_shard_14 : chkN closeSweepPred 458752 shardBits = true :=
+  (chkN_join _ 458752 14 (chkN_join _ 458752 13 (chkN_join _ 458752 12 (chkN_join _ 458752 11 close_blk_458752 close_blk_460800) (chkN_join _ 462848 11 close_blk_462848 close_blk_464896)) (chkN_join _ 466944 12 (chkN_join _ 466944 11 close_blk_466944 close_blk_468992) (chkN_join _ 471040 11 close_blk_471040 close_blk_473088))) (chkN_join _ 475136 13 (chkN_join _ 475136 12 (chkN_join _ 475136 11 close_blk_475136 close_blk_477184) (chkN_join _ 479232 11 close_blk_479232 close_blk_481280)) (chkN_join _ 483328 12 (chkN_join _ 483328 11 close_blk_483328 close_blk_485376) (chkN_join _ 487424 11 close_blk_487424 close_blk_489472))))
 end Demeter.TickClose
